@@ -187,17 +187,18 @@ def _run(tape):
                 for n, (op, key, val) in enumerate(r['ops']):
                     if r['pauses'][n]:
                         sim.sleep(r['pauses'][n])
-                    after = state['close_invoked_at'] is not None
                     if op == 'set_data':
                         timed(lambda: rec.set_data(key, val), 'set_data')
                     else:
                         timed(lambda: rec.add_metadata(val), 'add_metadata')
+                    # "requested before close" = the call returned before close() was invoked
+                    after = state['close_invoked_at'] is not None
                     req.append((op, key, val, after))
                 if r['pauses'][-1]:
                     sim.sleep(r['pauses'][-1])
-                after = state['close_invoked_at'] is not None
                 if r['end'] == 'save':
                     timed(lambda: cassette.save_recording(rec), 'save_recording')
+                    after = state['close_invoked_at'] is not None
                     req.append(('save', None, None, after))
                 elif r['end'] == 'abort':
                     timed(lambda: cassette.abort_recording(rec), 'abort_recording')
@@ -224,7 +225,7 @@ def _run(tape):
 
     with seams.rebind([(AM.__name__, 'Thread', Thread), (AM.__name__, 'Lock', Lock), (AM.__name__, 'Event', Event)]):
         wrapped = SpyWrapped(ctx)
-        cassette = AM.AsyncRecordOnlyTapeCassette(wrapped, flush_interval=flush_interval, timeout_on_close=tape.choice([10, 60]))
+        cassette = AM.AsyncRecordOnlyTapeCassette(wrapped, flush_interval=flush_interval, timeout_on_close=tape.choice([10, 60]) + 2 * sum(ctx.slow.values()))   # assumption: storage delay stays below the close timeout
         ctx.cassette = cassette
         try:
             sim.run_main(main)
